@@ -1491,6 +1491,13 @@ def dict_comprehension(it, fr, e, xs):
         kv, vv = it.eval(fr2, e.key), it.eval(fr2, e.value)
     finally:
         it.pure -= 1
+    return dict_from_pairs(it, xs, J, cond, kv, vv)
+
+
+def dict_from_pairs(it, xs, J, cond, kv, vv):
+    """the dict {kv(J): vv(J) for J in range(len(xs)) if cond(J)} -- one symbolic-dict construction shared by dict comprehensions,
+    dict(zip(a, b)), dict(pairs) and dict(d.items()) (later positions win, as in Python)."""
+    run = it.run
     kt = pm._lift(kv, Str) if not isinstance(kv, RawV) else None
     if kt is None:
         return RawMap(run, xs, J, cond, kv, vv)
@@ -2964,3 +2971,136 @@ _np_scalar('maximum', x_max, 2)
 _np_scalar('abs', lambda a: z3.If(xreal.sign_neg(a), xreal.neg(a), a), 1)
 _np_scalar('absolute', lambda a: z3.If(xreal.sign_neg(a), xreal.neg(a), a), 1)
 _np_scalar('fabs', lambda a: z3.If(xreal.sign_neg(a), xreal.neg(a), a), 1)
+
+
+# ------------------------------------------------------------------------------------------ dict(...) / {**a, **b} over symbolic contents
+def _pairs_list(it, v):
+    """a symbolic list whose elements are (key, value) pairs, or None."""
+    if isinstance(v, ZipList) and len(v.parts) == 2:
+        return v
+    if isinstance(v, ItemsList) and v.what == 'items':
+        return v
+    return None
+
+
+_prev_b_dict = M.BUILTINS['dict'].fn
+
+
+def _b_dict(it, args, kw):
+    if args:
+        src = args[0]
+        if isinstance(src, Abs):
+            return Abs('dict')
+        if isinstance(src, PDictV):
+            src = pd_content(it, src)
+        if isinstance(src, (DictV, SMap)):
+            di = src.di
+            if di is None:
+                raise Unsupported('dict() of an untyped dict under construction')
+            dom, val, _ = view(it, src, di)
+            m = SMap('dictcopy', di, dom, val, z3.K(Str, z3.IntVal(-1)))
+            for k, x in kw.items():
+                m.set(it, k, x)
+            return m
+        xs = _pairs_list(it, src)
+        if xs is not None and M.try_iterate(it, xs) is None:
+            J = it.run.fresh('dj', z3.IntSort())
+            pair = xs.get(J)
+            if any(isinstance(x, Abs) for x in pair):
+                return Abs('dict of opaque values')
+            m = dict_from_pairs(it, xs, J, z3.BoolVal(True), pair[0], pair[1])
+            if kw:
+                if not isinstance(m, SMap):
+                    raise Unsupported('dict(pairs, **kw) with non-string keys')
+                for k, x in kw.items():
+                    m.set(it, k, x)
+            return m
+    return _prev_b_dict(it, args, kw)
+
+
+M.BUILTINS['dict'] = Builtin('dict', _b_dict)
+
+_prev_e_Dict = E.Interp.e_Dict
+
+
+def _e_Dict(self, fr, e):
+    """{**a, **b, k: v}: with symbolic operands the result is the right-biased union (same construction as item stores)."""
+    if not any(k is None for k in e.keys):
+        return _prev_e_Dict(self, fr, e)
+    parts = [(None if k is None else self.eval(fr, k), self.eval(fr, v)) for k, v in zip(e.keys, e.values)]
+    if not any(k is None and isinstance(v, (SMap, DictV, PDictV, Abs)) for k, v in parts):
+        return _prev_e_Dict(self, fr, e)
+    if any(k is None and isinstance(v, Abs) for k, v in parts):
+        return Abs('dict')
+    di = None
+    for k, v in parts:
+        if k is None:
+            if isinstance(v, PDictV):
+                di = di or PDI
+            elif isinstance(v, (DictV, SMap)) and v.di is not None:
+                di = di or v.di
+    if di is None:
+        raise Unsupported('dict display over untyped symbolic dicts')
+    m = empty_smap(di, 'dictunion')
+    for k, v in parts:
+        if k is not None:
+            m.set(self, k, v)
+            continue
+        if isinstance(v, PDictV):
+            v = pd_content(self, v)
+        dom, val, _ = view(self, v, di)
+        s_ = z3.Const('s!du', Str)
+        m.dom = z3.Lambda([s_], z3.Or(m.dom[s_], dom[s_]))
+        m.val = z3.Lambda([s_], z3.If(dom[s_], val[s_], m.val[s_]))
+    return m
+
+
+E.Interp.e_Dict = _e_Dict
+
+
+class PairList(SymList):
+    """[(k(x), v(x), ...) for x in xs]: a symbolic list of tuples, defined pointwise."""
+
+    def __init__(self, xs, J, elems):
+        SymList.__init__(self, xs.n, xs.arr, 'tuple')
+        self.xs, self.J, self.elems = xs, J, elems        # elems: [(Kind, term)]
+
+    def get(self, i):
+        return tuple(k.wrap(z3.substitute(t, (self.J, i))) for k, t in self.elems)
+
+
+_prev_filter_map9 = M.symbolic_filter_map
+
+
+def _filter_map9(it, fr, e, xs):
+    if isinstance(xs, (VList, ZipList, EnumList, ItemsList)) and isinstance(e.elt, ast.Tuple) and not e.generators[0].ifs:
+        run = it.run
+        J = run.fresh('cj', z3.IntSort())
+        fr2 = E.Frame(fr.mod, {}, parent=fr)
+        it.pure += 1
+        try:
+            it.assign(fr2, e.generators[0].target, xs.get(J))
+            vals = [it.eval(fr2, x) for x in e.elt.elts]
+        finally:
+            it.pure -= 1
+        if any(isinstance(v, Abs) for v in vals):
+            r = abs_list(it)
+            r.n = xs.n
+            return r
+        kinds = [kind_of_value(v) for v in vals]
+        if all(k is not None for k in kinds):
+            return PairList(xs, J, [(k, k.unwrap(it, v)) for k, v in zip(kinds, vals)])
+    return _prev_filter_map9(it, fr, e, xs)
+
+
+M.symbolic_filter_map = _filter_map9
+_prev_pairs_list = _pairs_list
+
+
+def _pairs_list(it, v):      # noqa: F811
+    if isinstance(v, PairList) and len(v.elems) == 2:
+        return v
+    if isinstance(v, M.LazyGen) and isinstance(v.e.elt, ast.Tuple) and len(v.e.elt.elts) == 2 and not v.e.generators[0].ifs \
+            and isinstance(v.xs, (VList, ZipList, EnumList, ItemsList)):
+        return _filter_map9(it, v.fr, v.e, v.xs)
+    return _prev_pairs_list(it, v)
